@@ -22,7 +22,7 @@ pub fn hup_step(s: &mut Src, sh: &Shape, kind: u8) {
             let _ = r.step(m);
         }
         1 => {
-            let mut m = msg(MessageType::MsgTimeoutNow, 2, term0);
+            let m = msg(MessageType::MsgTimeoutNow, 2, term0);
             vassume!(term0 >= 1);
             let _ = r.step(m);
         }
